@@ -60,7 +60,9 @@ func (g *tplGen) cond() string {
 	switch r.n(14) {
 	case 12:
 		// a condition holds when its value PRINTS as "true", whatever Go type carries it
-		return r.pick([]string{"${strue}", "${sfalse}", "${'true'}", "tr${'ue'}", "${strue}${''}", "${b ? strue : sfalse}"})
+		// … and ONLY then: a value that prints as "true" with white space around it is not "true"
+		return r.pick([]string{"${strue}", "${sfalse}", "${'true'}", "tr${'ue'}", "${strue}${''}", "${b ? strue : sfalse}",
+			" ${strue}", "${strue} ", " ${t} ", "${' true'}", "${strue + ' '}", "true ", " true", "${t}\n", "\n${strue}", "${'true\\n'}", "${t}${' '}", "TRUE", "${'True'}"})
 	case 13:
 		return r.pick([]string{"${strue}", "${sfalse}"})
 	case 0:
@@ -143,7 +145,8 @@ func (g *tplGen) elem(d int, condKind string) string {
 	kind := "plain"
 	switch r.n(14) {
 	case 0:
-		tag, kind = g.tp+"block", "block"
+		// (the block element's name, prefix included, is matched without regard to letter case)
+		tag, kind = r.pick([]string{g.tp + "block", g.tp + "block", strings.ToUpper(g.tp) + "block", g.tp + "Block", strings.ToUpper(g.tp) + "BLOCK", strings.ToUpper(g.tp[:1]) + g.tp[1:] + "Block"}), "block"
 	case 1:
 		tag, kind = r.pick([]string{"br", "img", "input", "hr", "BR", "Img", "INPUT", "hR"}), "void" // (element names are case-insensitive)
 	case 2:
